@@ -31,6 +31,37 @@ func runCLI(dir string, argv []string, stdin []byte, env []string, timeout time.
 	return runCLIAs(0, dir, argv, stdin, env, timeout)
 }
 
+// runCLIStdinFile: the binary with an open file (at its current read position) as standard input
+func runCLIStdinFile(dir string, argv []string, in *os.File, timeout time.Duration) cliResult {
+	cmd := exec.Command(binPath("decipher"), argv...)
+	cmd.Dir = dir
+	cmd.Env = []string{"PATH=/usr/bin:/bin", "HOME=/nonexistent"}
+	cmd.Stdin = in
+	var so, se bytes.Buffer
+	cmd.Stdout, cmd.Stderr = &so, &se
+	var res cliResult
+	done := make(chan error, 1)
+	if err := cmd.Start(); err != nil {
+		fatalf("start decipher: %v", err)
+	}
+	go func() { done <- cmd.Wait() }()
+	select {
+	case err := <-done:
+		if ee, ok := err.(*exec.ExitError); ok {
+			res.exit = ee.ExitCode()
+		} else if err != nil {
+			res.exit = -1
+		}
+	case <-time.After(timeout):
+		_ = cmd.Process.Kill()
+		<-done
+		res.timedOut = true
+		res.exit = -2
+	}
+	res.stdout, res.stderr = so.Bytes(), se.Bytes()
+	return res
+}
+
 // runCLIAs: uid 0 = as the harness itself; otherwise the binary runs with that uid/gid (an unprivileged user, for whom file
 // modes mean something)
 func runCLIAs(uid uint32, dir string, argv []string, stdin []byte, env []string, timeout time.Duration) cliResult {
